@@ -44,6 +44,11 @@ def correspondence(ctx):
     for s_ in product_strings(ctx, tails=[[0x20, 0x20, 0x62], [0xA0, 0x62], [0x20], [0x3000], [0x62, 0x20, 0x20, 0xE9], [0x9, 0x20, 0x20]], heads=[[], [0x20], [0x61, 0x20]], extra_long=(ctx.requested_tier == 'thorough')):
         cases.append(f'rules|nick|addmap|{hexs(s_)}')
         cases.append(f'rules|op|addmap|{hexs(s_)}')
+    # labels beyond 16-bit offsets (decided inside the harness against a straightforward reference: implementation-vs-oracle,
+    # reported as a correspondence failure naming the case)
+    for n_ in ([65530, 65536, 70000] if ctx.tier == 'quick' else [4090, 32768, 65530, 65534, 65535, 65536, 65537, 70000, 131073, 1 << 20]):
+        for tail_ in ('0020 0020 0061 006C 0070 0068 0061 0020 0062 0065 0074 0061', '3000 00E9 0074 00E9 00A0 0066 0069 006E 0020', '0020', '00A0 0062'):
+            cases.append(f'longspace|{n_}|{tail_}')
     cases += fuzz_cases(ctx, {7})      # coverage-guided search of the tree under check (only when the source changed / thorough)
     res = run_cases(cases, ctx.work)
     zset = set(zs)
